@@ -296,7 +296,12 @@ def gen_dissim(rng, kinds=None, labels=None, allow_component_delta=True):
                 spec["p_dtype"] = rng.choice(["int64", "int32", "pyint"])
         return spec
     if kind == "numerical":
-        cats = list(labels or rng.sample(LABELS_NUM, rng.randint(1, 6)))
+        pool_num = LABELS_NUM
+        if not labels and rng.random() < 0.25:
+            # numerical categories beyond the 24 bits of a float32: dates written as numbers, identifiers, large counts
+            base = rng.choice([20230100, 16777216, 1700000000, 123456700])
+            pool_num = [str(base + k) for k in (0, 1, 2, 4, 5, 9, 30, 31)]
+        cats = list(labels or rng.sample(pool_num, rng.randint(1, 6)))
         rng.shuffle(cats)
         return {"kind": kind, "cats": cats, "delta": delta}
     if kind == "combined":
